@@ -19,6 +19,13 @@ def gen(R, kind, b, depth, lens, nctx):
     return R.generate("MacObj", cfg)
 
 
+def gen_reuse(R, kind, b, lens):
+    """the reuse matrix: input{0,2} result? reset input{0,2} result (MacObj.ReuseShape)"""
+    cfg = hc.write_cfg(R, "GENR_MacObj_%s_%d" % (kind, b), {"Kind": '"%s"' % kind, "B": b, "MaxOps": 7, "NCtx": 1, "Lens": hc.tla_set(lens), "PolyFinish": '"always"',
+                                                          "ResetKeeps": '"keep"', "Gen": "TRUE"}, ["InvResult", "InvInput", "EmitReuse"], constraints=["ReuseShape"])
+    return R.generate("MacObj", cfg)
+
+
 def run(R):
     thorough = R.tier == "thorough"
     for k in ("hmac", "poly", "b2mac", "digest"):
@@ -55,6 +62,28 @@ def run(R):
                    {"cls": "mac", "mac": alg, "outlen": 20, "key": []}], per, "blake2mac")
         # the same objects through the Digest trait (keyed and unkeyed)
         use(behs, [{"cls": "digest", "alg": alg, "outlen": mo, "key": key(alg, 7)}, {"cls": "digest", "alg": alg, "outlen": 32, "key": []}], per // 2, "blake2digest")
+    # ---- reuse matrix: what the object held when it was reset x what it is fed afterwards (all of it for the cheap objects, a seeded
+    # part for the others in the quick tier)
+    nre = 0
+
+    def use_all(behs, base, label, frac):
+        nonlocal nre
+        for i, b in enumerate(behs):
+            if frac < 1 and R.rng.random() >= frac:
+                continue
+            hs.append(mc.concretise(R, b, base, label))
+            nre += 1
+            R.count((label, base.get("mac"), base.get("alg"), hc.signature(b)))
+    use_all(gen_reuse(R, "poly", 16, [0, 1, 15, 16, 17, 33]), {"cls": "mac", "mac": "poly1305", "key": key("polyre", 32)}, "reuse-poly", 1)
+    for alg, (b, mo, mk) in hc.BLAKE.items():
+        behs = gen_reuse(R, "b2mac", b, [0, 1, b - 1, b, b + 1])
+        use_all(behs, {"cls": "mac", "mac": alg, "outlen": mo, "key": key(alg + "re", mk)}, "reuse-b2mac", 1 if thorough else 0.35)
+        use_all(behs, {"cls": "mac", "mac": alg, "outlen": 24, "key": key(alg + "re1", 3)}, "reuse-b2mac", 1 if thorough else 0.1)
+        use_all(behs, {"cls": "digest", "alg": alg, "outlen": mo, "key": key(alg + "re2", 9)}, "reuse-b2digest", 0.5 if thorough else 0.08)
+    for alg, b in (("sha256", 64), ("sha512", 128), ("sha3_256", 136)):
+        behs = gen_reuse(R, "hmac", b, [0, 1, b - 1, b, b + 1])
+        use_all(behs, {"cls": "mac", "mac": "hmac", "alg": alg, "key": key("hmacre" + alg, 20)}, "reuse-hmac", 0.5 if thorough else 0.05)
+    R.extra["reuse_matrix_histories"] = nre
     cache = {}
     for alg in hc.FIXED:
         b = hc.block_of(alg)
